@@ -503,6 +503,7 @@ def main(argv):
         # prefer a direct property failure
         out.failures.sort(key=lambda f: 0 if f[2] == 'property' else 1)
         case, what, kind = out.failures[0]
+        case0, what0 = case, what
         if case is not None:
             try:
                 case = shrink(mod, case, kind)
@@ -514,6 +515,9 @@ def main(argv):
         payload = {'property': prop_id, 'kind': kind, 'what': what,
                    'case': mod.case_to_json(case) if case is not None else None,
                    'seed': seed, 'tier': tier, 'proof_status': proof_fail or 'ok'}
+        if case0 is not None and what0 != what:
+            # shrinking keeps the kind of failure, not its message: keep the first failing input as found
+            payload['unshrunk'] = {'what': what0, 'case': mod.case_to_json(case0)}
         path = write_replay(prop_id, payload)
         if kind == 'property':
             violation = 'VIOLATION property=%s replay=%s' % (prop_id, path)
